@@ -95,7 +95,8 @@ Definition spec_codes08 (c : c08case) : list N :=
       end
   end.
 
-(* ---- known finding classes (decidable on the case) ----
+(* ---- former finding classes (repaired in /repo; kept as decidable descriptions of the inputs, no
+   longer used by check1: a disagreement on such a case is an ordinary code 2) ----
    10: the call goes through a module-prefix import whose path starts with `super`: resolve_function
        builds "<ns'>.<alias>.<post-super part of alias>" instead of "<ns'>.<module path>.<rest of name>"
        and never finds the function;
@@ -131,10 +132,7 @@ Definition check1 (c : c08case) : list N :=
   | C08Case m limit debug cobs ns name nargs robs =>
       if negb (module_in_domain m) then [3]
       else
-        let sp := match spec_codes08 c with
-                  | [] => []
-                  | l => match known_codes08 c with [] => l | k => k end
-                  end in
+        let sp := spec_codes08 c in
         match cresult_diff (compile m {| o_recursion_limit := limit; o_debug := debug |}) cobs with
         | [] => sp
         | _ => 1 :: (if existsb (N.eqb 2) sp then [2] else [])
